@@ -221,6 +221,11 @@ class Gen:
         # noenum > 0 no numeric if-expression / variable bound to one is produced
         self.noenum = 0
         self.allow_enum_arith = False
+        # the variable of a for! loop / of a list pattern has no fixed type in erg: mixed arithmetic or a comparison with a
+        # Float operand unifies it with Float and later uses print 3.0 (known finding known_float_unify): while nofree > 0
+        # such variables are not produced
+        self.nofree = 0
+        self.free_vars = set()
 
     # ---- names
     def fresh(self, info):
@@ -238,6 +243,8 @@ class Gen:
             if inf.kind != "var":
                 continue
             if inf.enum and self.noenum > 0:
+                continue
+            if self.nofree > 0 and i in self.free_vars:
                 continue
             if inf.ty == ty or (not exact and ty == INT and inf.ty == NAT):
                 out.append(i)
@@ -387,11 +394,16 @@ class Gen:
             ta, tb = tb, ta
         if want == FLOAT and FLOAT not in (ta, tb):
             ta = FLOAT
-        a = self.operand(ta, d - 1)
-        if op in (3, 4, 5):
-            b = self.nonzero(tb, d - 1)
-        else:
-            b = self.operand(tb, d - 1)
+        mixed = FLOAT in (ta, tb) and ta != tb
+        self.nofree += mixed
+        try:
+            a = self.operand(ta, d - 1)
+            if op in (3, 4, 5):
+                b = self.nonzero(tb, d - 1)
+            else:
+                b = self.operand(tb, d - 1)
+        finally:
+            self.nofree -= mixed
         return Ex(E_BIN, [op, a, b], self.arith_ty(op, a.ty, b.ty))
 
     def pos_int(self, d):
@@ -493,7 +505,12 @@ class Gen:
         else:
             ta, tb = r.choice([NAT, INT]), r.choice([NAT, INT])
             op = r.choice([2, 3])
-        a, b = self.expr(ta, d - 1), self.expr(tb, d - 1)
+        mixed = FLOAT in (ta, tb) and ta != tb
+        self.nofree += mixed
+        try:
+            a, b = self.expr(ta, d - 1), self.expr(tb, d - 1)
+        finally:
+            self.nofree -= mixed
         # lower.rs get_bin_guard_type: == != need the *value* of the right operand (expr_to_value), the orderings only a
         # type parameter (expr_to_tp: may stay symbolic, so it only fails on a variable that is not a constant)
         g = self.is_const(b) if op in (2, 3) else self.is_const_tp(b)
@@ -661,6 +678,7 @@ class Gen:
             ety = NAT
         i = self.fresh(Info("var", ety))
         self.no_singleton.add(i)
+        self.free_vars.add(i)
         mark = len(self.scope)
         self.bind(i)
         body = self.block(r.randint(1, 2))
@@ -765,6 +783,7 @@ class Gen:
         ids = [self.fresh(Info("var", ety)) for _ in range(e.ty[2])]
         for i in ids:
             self.no_singleton.add(i)
+            self.free_vars.add(i)
             self.bind(i)
         return St(S_PAT, [1, ids, e])
 
